@@ -29,7 +29,7 @@ def generate(tier, seed):
     gr = [["alice", "admin"], ["bob", "admin"]]
     muts = [A("p", "p", pr[0]), R("p", "p", pr[0]), A("p", "p", pr[1]), R("p", "p", pr[1]), A("p", "p2", pr[2]), R("p", "p2", pr[2]),
             A("g", "g", gr[0]), R("g", "g", gr[0]), AM("p", "p", pr[:2]), RM("p", "p", pr[:2]), RF("p", "p", 0, ["alice"]),
-            RF("g", "g", 0, ["alice"]), RF("g", "g", 1, ["admin"]), "ar:alice:admin:-", "dr:alice:admin:-", "du:alice", "dra:admin", "dpsf:alice",
+            RF("g", "g", 0, ["alice"]), RF("g", "g", 1, ["admin"]), AM("g", "g", gr), RM("g", "g", gr), "ar:alice:admin:-", "dr:alice:admin:-", "du:alice", "dra:admin", "dpsf:alice",
             "CL", "LD", "LF:%s:%s" % (enc_rule(["alice"]), enc_rule([])), "SV",
             "SM:" + other_spec(), "SM:" + sp, "SA:" + adapter_M([["p", "p"] + pr[2], ["g", "g"] + gr[1]]), "SA:N",
             "SR:10", "BR", "EE:0", "EE:1", "SE", "AF:keyMatch:neq", "AF:g:eq", "ES:0", "ES:1", "EB:0", "EB:1", "EN:0", "EN:1"]
